@@ -168,8 +168,8 @@ type factRec struct {
 var smtBuiltins = map[string]bool{"and": true, "or": true, "not": true, "ite": true, "select": true, "store": true, "forall": true, "exists": true,
 	"true": true, "false": true, "mod": true, "div": true, "abs": true, "as": true, "const": true, "Array": true, "Int": true, "Bool": true, "Ref": true,
 	"Any": true, "Slice": true, "Str": true, "null": true, "zero_Any": true, "nil_slice": true, "let": true, "pattern": true, "distinct": true,
-	"mk-slice": true, "s-arr": true, "s-off": true, "s-len": true, "s-cap": true, "mk-str": true, "str-len": true, "str-data": true,
-	"gorem": true, "godiv": true, "wrap_s": true, "wrap_u": true, "pow2": true, "shr": true, "streq": true, "hasprefix": true}
+	"mk-slice": true, "s-arr": true, "s-off": true, "s-len": true, "s-cap": true, "mk-str": true, "str-len": true, "slen": true, "str-data": true,
+	"gorem": true, "godiv": true, "wrap_s": true, "wrap_u": true, "pow2": true, "shr": true, "streq": true, "hasprefix": true, "sidx": true}
 
 // symsOf lists the user symbols of an SMT term string.
 func symsOf(s string) []string {
@@ -489,8 +489,10 @@ type dbgBind struct {
 }
 
 type retPath struct {
-	st  *State
-	val Val
+	st    *State
+	val   Val
+	block *ssa.BasicBlock
+	pos   token.Pos
 }
 
 type inEdge struct {
